@@ -1,3 +1,4 @@
+import DhcpProofs.Lemmas.V4MapOrder
 import DhcpProofs.Lemmas.V4Canon
 import DhcpProofs.Lemmas.V4Parse
 import DhcpProofs.Lemmas.V4RoundTrip
@@ -126,6 +127,78 @@ theorem C07_swap_updates (o : Opts) (c d : UInt8) (v w : Bytes) (hcd : c ≠ d) 
   intro k
   simp only [applyOps, List.foldl_cons, List.foldl_nil, applyOp, Opts.set]
   by_cases hk : k = c <;> by_cases hk' : k = d <;> simp_all
+
+/-! ### the order in which Go's runtime yields the map's keys
+
+`Options` is a Go map: `for k := range o` in `sortedKeys` yields the keys in an
+order that is unspecified and differs from run to run.  `enc4From it p` is
+`ToBytes` executed when that loop yields the keys in the order `it`.  The
+theorems quantify over EVERY such order (every permutation of the key set), so
+"the bytes do not depend on the order in which the options were added" is a
+statement about the algorithm the code runs — collect, sort, append 82 and 255 —
+and not only about the model's order-free map.  That `sortedKeys` has that
+shape (one `range`, the codes 82 and 255 skipped, a sort call between the loop
+and the appends of 82 and 255 in that order; `Marshal` ranges over
+`o.sortedKeys()` only) is re-read from the source on every run:
+`fact_sortedKeys_shape` (DhcpProofs/Facts/V4Codec.lean). -/
+
+/-- `(*DHCPv4).ToBytes` when `range o` yields the option codes in the order `it` -/
+def enc4From (it : List UInt8) (p : Pkt4) : Res Bytes := do
+  let ci ← writeIP p.ciaddr
+  let yi ← writeIP p.yiaddr
+  let si ← writeIP p.siaddr
+  let gi ← writeIP p.giaddr
+  let body : Bytes :=
+    [p.op, UInt8.ofNat p.htype, UInt8.ofNat p.hw.length, p.hops] ++ copyInto 4 p.xid
+      ++ be16 p.secs ++ be16 p.flags ++ ci ++ yi ++ si ++ gi
+      ++ copyInto chaddrLen p.hw
+      ++ nameField snameCap p.sname
+      ++ nameField fileCap p.file
+      ++ magicCookie ++ marshalOptsFrom it p.opts ++ [optEnd]
+  pure (body ++ zeros (bootpMinLen - body.length))
+
+/-- **C07 (map iteration order).** For every packet — in the encodable domain or
+not — and every order `it` in which the runtime may yield the keys of the
+option map, the encoder produces the bytes of `enc4`: the output is a function
+of the option set's CONTENTS alone. -/
+theorem C07_map_order_irrelevant (p : Pkt4) (it : List UInt8) (h : it.Perm p.opts.keys) :
+    enc4From it p = enc4 p := by
+  unfold enc4From enc4
+  rw [marshalOptsFrom_eq p.opts it h]
+
+/-- two runs of the encoder on packets with the same contents, each under its own
+iteration order, give identical bytes -/
+theorem C07_map_order_pair (p : Pkt4) (it₁ it₂ : List UInt8)
+    (h₁ : it₁.Perm p.opts.keys) (h₂ : it₂.Perm p.opts.keys) :
+    enc4From it₁ p = enc4From it₂ p := by
+  rw [C07_map_order_irrelevant p it₁ h₁, C07_map_order_irrelevant p it₂ h₂]
+
+/-- the same through two different build histories: any two edit histories that
+leave the same contents, encoded under any two iteration orders -/
+theorem C07_order_independent_any_iteration (p : Pkt4) (ops₁ ops₂ : List OptOp) (it₁ it₂ : List UInt8)
+    (h : ∀ c, (applyOps p.opts ops₁).f c = (applyOps p.opts ops₂).f c)
+    (h₁ : it₁.Perm (applyOps p.opts ops₁).keys) (h₂ : it₂.Perm (applyOps p.opts ops₂).keys) :
+    enc4From it₁ { p with opts := applyOps p.opts ops₁ } =
+      enc4From it₂ { p with opts := applyOps p.opts ops₂ } := by
+  rw [C07_map_order_irrelevant _ it₁ h₁, C07_map_order_irrelevant _ it₂ h₂]
+  exact C07_order_independent p ops₁ ops₂ h
+
+/-- what the sort contributes: WITHOUT it the output would follow the iteration
+order (two orders of the keys {1, 3} give different code sequences), so the
+statement above is not true of "collect and append" alone -/
+theorem C07_sort_needed :
+    ([3, 1] : List UInt8).Perm [1, 3] ∧ ([3, 1] : List UInt8) ≠ [1, 3] ∧
+    sortedKeysFrom [3, 1] = [1, 3] ∧ sortedKeysFrom [1, 3] = [1, 3] := by
+  refine ⟨List.Perm.swap 1 3 [], by decide, by decide, by decide⟩
+
+/-- `sort.Ints` enters only through its specification: any function that returns
+an ascending permutation of the collected codes yields the same key list -/
+theorem C07_any_sort (l r : List UInt8) (hr : Asc r) (hp : r.Perm l) : r = sortCodes l :=
+  sortCodes_unique l r hr hp
+
+/-- Non-vacuity: the keys {82, 5, 255, 3, 200, 1} yielded in that scrambled order
+come out as 1, 3, 5, 200, then 82, then 255 -/
+example : sortedKeysFrom [82, 5, 255, 3, 200, 1] = [1, 3, 5, 200, 82, 255] := by decide
 
 set_option maxRecDepth 4000 in
 /-- Non-vacuity: a 300-byte value is written as two instances of 255 and 45
